@@ -3,11 +3,13 @@
 Model side (coq/Model/Pickle.v, kind 13): the identity-keyed side tables of a machine
 (model_context_map, model_graphs, _transition_queue_dict), their maintenance by
 add_model/remove_model, the __getstate__/__setstate__ hooks in effect for each of the 12
-predefined classes, and the assumed behaviour of pickle (fresh identities, sharing
-preserved, integers verbatim).  It predicts which identities key the tables of the copy,
-which contexts an event on each model of the copy enters, the state of the re-created
-locks — and, by theorems C15_same / C15_independent, that every comparison flag of the
-behavioural differential below is 1.
+predefined classes (the locked graph classes run both protocols since /repo 74ef53e; the
+locked store is a list of pairs since 3c0ca68, so unhashable models pickle), and the assumed
+behaviour of pickle (fresh identities, sharing preserved, integers verbatim).  It predicts
+which identities key the tables of the copy, which contexts an event on each model of the
+copy enters, the state of the re-created locks — and, by theorems C15_same /
+C15_independent, that every comparison flag of the behavioural differential below is 1.
+The only known-finding class left is KF-C15-3 (async classes with queued='model').
 
 Implementation side: real machines from /repo with callbacks given BY NAME as methods of
 the picklable classes defined in this module; history prefix, pickle.loads(pickle.dumps(m)),
@@ -62,9 +64,9 @@ ASSUMPTIONS = [
     'keys of AsyncMachine._transition_queue_dict are read (read-only) through the private attribute',
 ]
 THEOREMS = ['C15_hooks_table', 'C15_reachable_wf', 'C15_same', 'C15_same_run', 'C15_same_run_quiet',
-            'C15_rekey_contexts', 'C15_rekey_graphs', 'C15_locks_free', 'C15_fresh_identities', 'C15_frame',
+            'C15_rekey_contexts', 'C15_pickles_always', 'C15_rekey_graphs', 'C15_locks_free', 'C15_fresh_identities', 'C15_frame',
             'C15_independent_run', 'C15_independent', 'C15_hold_independent', 'C15_envelope_inhabited',
-            'C15_same_refuted_locked_graph', 'C15_same_refuted_unhashable', 'C15_same_refuted_async_queue']
+            'C15_locked_graph_rekeyed', 'C15_unhashable_pickles', 'C15_same_refuted_async_queue']
 
 
 # ====================================================================== picklable user classes
@@ -298,7 +300,8 @@ def _hooks_code(cls):
         if k is object:
             break
         if '__getstate__' in vars(k):
-            return {'LockedMachine': 1, 'GraphMachine': 2}.get(k.__name__, 9)
+            return {'LockedMachine': 1, 'GraphMachine': 2, 'LockedGraphMachine': 3,
+                    'LockedHierarchicalGraphMachine': 3}.get(k.__name__, 9)
     return 0
 
 
@@ -655,34 +658,24 @@ def _impl_c15(case):
 
 # ====================================================================== canonical form, oracle, known findings
 def kf_class(case):
+    """the only known-finding class left: an async class with queued='model' (KF-C15-3).  KF-C15-1 (locked graph
+    classes) and KF-C15-2 (unhashable models in locked machines) are fixed in /repo (74ef53e, 3c0ca68) and are
+    ordinary in-envelope cases now."""
     graph, nested, locked, is_async = _flags(case)
-    if locked and graph:
-        return 'KF-C15-1'
     if is_async and case['qmode'] == 'model':
         return 'KF-C15-3'
-    if locked and not graph:
-        live = live_models(case)
-        if any(not case['models'][t]['hashable'] for t in live):
-            return 'KF-C15-2'
     return None
 
 
 def canon(case, obs):
-    """the behaviour flags of a class whose copy is known to be damaged are not compared:
-    KF-C15-3: every event on the copy raises KeyError; KF-C15-1: the copy enters other contexts (journal flag)"""
+    """the behaviour flags of the one class whose copy is known to be damaged are not compared
+    (KF-C15-3: every event on the copy raises KeyError); everything else is compared as it is"""
     if not isinstance(obs, list) or len(obs) < 3 or not isinstance(obs[2], list) or obs[2][:1] != [1]:
         return obs
-    kf = kf_class(case)
-    obs = copy.deepcopy(obs)
-    beh = obs[2][2]
-    if kf == 'KF-C15-3':
+    if kf_class(case) == 'KF-C15-3':
+        obs = copy.deepcopy(obs)
         obs[2][2] = []
         return obs[:3]
-    if kf == 'KF-C15-1':
-        for row in beh[0]:
-            row[5] = True
-        if all(all(r) for r in beh[0]) and all(beh[1]):
-            return obs[:3]
     return obs
 
 
@@ -693,7 +686,7 @@ def failing_clauses(case, obs):
         return ['undecodable']
     pick = obs[2]
     if pick[0] == 0:
-        return ['pickling raised TypeError']
+        return ['pickling raised TypeError']        # no class may do that any more (3c0ca68)
     if pick[0] == 2:
         return ['an operation on the original or the copy never returned (deadlock)']
     rekey = pick[1]
@@ -741,9 +734,6 @@ def failing_clauses(case, obs):
 
 
 KF_ALLOWED = {
-    'KF-C15-1': {'model_context_map of the copy keyed by the identities of its models',
-                 'contexts found for each model of the copy (names, unlocked, shared with machine_context)'},
-    'KF-C15-2': {'pickling raised TypeError'},
     'KF-C15-3': {'queue table of the copy keyed by the identities of its models'},
 }
 
@@ -758,11 +748,14 @@ def oracle(case, obs):
 
 
 def classify_known(case, model_obs, impl_obs):
+    """KF-C15-3 and nothing else: the case is in that class, the implementation's observation equals the model's
+    (which reproduces the stale queue table) whenever the model's is available, and the ONLY failing clause of the
+    oracle is the queue-table clause.  A model/implementation disagreement is never classified as known."""
     kf = kf_class(case)
     if kf is None or isinstance(impl_obs, dict):
         return None
     if model_obs is not None and canon(case, model_obs) != canon(case, impl_obs):
-        return None        # a known finding is a case the model reproduces exactly
+        return None
     f = set(failing_clauses(case, canon(case, impl_obs)))
     if f and f <= KF_ALLOWED[kf]:
         return kf
